@@ -72,7 +72,7 @@ def build_cases(thorough):
     cats = list(plancorpus.CATALOGS)
     for i, sql in enumerate(gen):
         # statements with a time-series model meet every catalog form (settings are normalised per form); others rotate
-        use = cats if (thorough or 'mindsdb.tp' in sql) else [cats[i % len(cats)], cats[(i + 2) % len(cats)]]
+        use = cats if (thorough or 'mindsdb.tp' in sql or 'partition_size' in sql) else [cats[i % len(cats)], cats[(i + 2) % len(cats)]]
         for c in use:
             cases.append((sql, plancorpus.catalog(c, with_ts=True), None, c))
     return cases
